@@ -1,6 +1,7 @@
 package vc
 
 import (
+	"go/ast"
 	"os"
 	"go/token"
 	"fmt"
@@ -117,6 +118,33 @@ func verifyFuncMode(p *Program, fc *FuncContract, prop string, unroll int) (u *U
 		z.GoT = types.Typ[types.Int]
 		env.vars[cv] = z
 	}
+	// vacuity: a call-site clause that matches no call in the body states nothing - unless it is a prohibition
+	// (`requires false`), which then holds because the callee is not called at all
+	if x.unroll == 0 {
+		for _, cs := range fc.Callsite {
+			if cs.Callee == "make" {
+				continue
+			}
+			n := 0
+			ast.Inspect(fi.Decl.Body, func(nd ast.Node) bool {
+				if call, ok := nd.(*ast.CallExpr); ok {
+					if fn := x.calleeOf(call); fn != nil && (p.KeyOf(fn) == cs.Callee || fn.Name() == cs.Callee) {
+						n++
+					}
+				}
+				return true
+			})
+			if n > 0 {
+				continue
+			}
+			if t := strings.TrimSpace(cs.Clause.Text); t == "false" || strings.HasSuffix(t, ": false") {
+				o := w.Oblige(x.oblName("callsite:"+cs.Callee+"/never-called", ""), "frame", True, True)
+				o.Preset, o.Solver, o.Result = true, "callsite-scan", "unsat"
+				continue
+			}
+			unsupported("call-site clause on %s matches no call in %s", cs.Callee, fi.Key)
+		}
+	}
 	cx.oldEnv = env.clone()
 	// requires
 	sc := x.scopeAt(env, fi.Decl.Body.Lbrace+1)
@@ -195,7 +223,7 @@ func verifyFuncMode(p *Program, fc *FuncContract, prop string, unroll int) (u *U
 	}
 	// vacuity: an atreturn clause that applies to no return statement of the body states nothing
 	for i, c := range fc.AtReturn {
-		if !cx.atretApplied[i] {
+		if !cx.atretApplied[i] && x.unroll == 0 {
 			unsupported("atreturn clause %s applies to no return statement (ordinal %d; without ordinal: returns whose last result is literally nil)", clauseName(c, i), c.Ordinal)
 		}
 	}
